@@ -25,3 +25,15 @@ Example C03_example :
   let s := full_run r [1; 2; 3; 4; 5] ops (round_robin 3 12) in
   all_doneb s = true /\ res_red (tpe [1; 2; 3; 4; 5] ops) Nat.add (ws s) = Some 9.
 Proof. vm_compute. split; reflexivity. Qed.
+
+From OrxPar Require Import MachineIter MachineIterP MasterIter.
+
+(** the same over a by-value iterator source (first-come handle of ConIterOfIterX) *)
+Theorem C03_reduce_iter : forall (V : Type) (src : list V) (ops : list (op V)) (r : Runner)
+  (ordered : bool) (sched : list nat) (f : V -> V -> V),
+  runner_wf r -> iall_done (imrun r (tlen src ops) ordered (@nostop) sched) ->
+  (forall a b c, f (f a b) c = f a (f b c)) -> (forall a b, f a b = f b a) ->
+  res_red (tpe src ops) f (map wk (iws (imrun r (tlen src ops) ordered (@nostop) sched)))
+  = reduce_list f (seq_chain (stages_of ops) src).
+Proof. intros V src ops r ordered sched f Hw Hd Ha Hc. apply iter_reduce; assumption. Qed.
+Print Assumptions C03_reduce_iter.
